@@ -240,8 +240,6 @@ Definition shuffle_match (c : cfg) (l : list sext) (ws : list (N * bytes)) : boo
   nodup_N (filter (fun i => negb (Grease.is_grease i)) (map fst ws)) &&
   seq_match c (expect_exts 0 (arrange l ws)) ws.
 
-Definition shuffles (p : parrot) : bool := match p_draws p with [] => false | _ => true end.
-
 Definition ast_matches_specb (a : ast) (p : parrot) (c : cfg) : bool :=
   let sp := p_spec p in
   (a_vers a =? N.min (spec_max sp) 771)                       (* legacy_version = min(spec maximum, TLS 1.2) *)
@@ -249,7 +247,7 @@ Definition ast_matches_specb (a : ast) (p : parrot) (c : cfg) : bool :=
   && (blen (a_sid a) =? 32)                                    (* session id: per connection *)
   && list_match gmatch (sp_suites sp) (a_suites a)             (* the spec's cipher suites, GREASE slots *)
   && bytes_eqb (a_comp a) (sp_comp sp)                         (* the spec's compression methods *)
-  && (if shuffles p then shuffle_match c (sp_exts sp) (a_exts a)
+  && (if p_shuffles p then shuffle_match c (sp_exts sp) (a_exts a)
       else seq_match c (expect_exts 0 (sp_exts sp)) (a_exts a)).
 
 (* ---- well-formed regenerated table entry ---- *)
@@ -288,10 +286,15 @@ Definition count_grease (es : list sext) : nat :=
 Definition wf_sext (s : sext) : bool :=
   match s with
   | SExt e =>
-      wf_ext e && negb (pad_other e) &&
+      (* the OmitEmptyPsk flag of the spec value is overwritten from the Config (syncSessionExts) *)
+      wf_ext (match e with
+              | EUtlsPreSharedKey s cl _ ids bs => EUtlsPreSharedKey s cl true ids bs
+              | EFakePreSharedKey _ ids bs => EFakePreSharedKey true ids bs
+              | _ => e end)
+      && negb (pad_other e) &&
       match e with
       | ESNI host => (blen host <? 256) && negb (last host 0 =? 46)
-      | EGREASE v _ => Grease.is_grease v
+      | EGREASE _ b => blen b <? 1024                  (* Value is overwritten by ApplyPreset *)
       | EKeyShare ks =>
           forallb (fun k => Grease.is_grease (fst k) || (1 <? blen (snd k))
                             || match key_size (fst k) with Some _ => true | None => false end) ks
@@ -323,5 +326,4 @@ Definition wf_spec (sp : spec) : bool :=
   && is_ok (sync_session_exts (flat_map (fun s => match s with SExt e => [e] | _ => [] end) (sp_exts sp)))
   && (sum_map static_len (sp_exts sp) <? 20000).
 
-Definition wf_parrot (p : parrot) : bool :=
-  wf_spec (p_spec p) && forallb (draw_ok (sp_exts (p_spec p))) (p_draws p).
+Definition wf_parrot (p : parrot) : bool := wf_spec (p_spec p).
